@@ -13,6 +13,11 @@ import (
 // DefaultMaxIndexCidSize specifies the maximum size in byptes accepted as a section CID by CARv2 index.
 const DefaultMaxIndexCidSize = 2 << 10 // 2 KiB
 
+// maxIndexableCidSize is the largest value MaxIndexCidSize can usefully take: an index record holds
+// the multihash digest of a CID followed by an 8-byte offset, and records wider than 32 MiB are
+// refused when an index is read back (see index.ReadFrom).
+const maxIndexableCidSize = 32<<20 - 8
+
 // DefaultMaxAllowedHeaderSize specifies the default maximum size that a CARv1
 // decode (including within a CARv2 container) will allow a header to be without
 // erroring. This is to prevent OOM errors where a header prefix includes a
@@ -85,6 +90,10 @@ func ApplyOptions(opt ...Option) Options {
 	if opts.MaxIndexCidSize == 0 {
 		opts.MaxIndexCidSize = DefaultMaxIndexCidSize
 	}
+	// A larger CID would be written into an index that can then not be read back.
+	if opts.MaxIndexCidSize > maxIndexableCidSize {
+		opts.MaxIndexCidSize = maxIndexableCidSize
+	}
 	return opts
 }
 
@@ -147,6 +156,7 @@ func StoreIdentityCIDs(b bool) Option {
 
 // MaxIndexCidSize specifies the maximum allowed size for indexed CIDs in bytes.
 // Indexing a CID with larger than the allowed size results in ErrCidTooLarge error.
+// Values above what an index record can hold (32 MiB less the 8-byte offset) are capped there.
 func MaxIndexCidSize(s uint64) Option {
 	return func(o *Options) {
 		o.MaxIndexCidSize = s
